@@ -200,7 +200,8 @@ class Run:
         seen = set()
         nviol = 0
         for (epi, ev, why, name, profile) in self.violations:
-            p = core.save_replay(self.prop, epi)
+            # every listed violation has its replay file; beyond 40 they are only counted
+            p = core.save_replay(self.prop, epi, write=nviol < 40)
             if p in seen:
                 continue
             seen.add(p)
